@@ -610,6 +610,13 @@ class DB(object):
                     callees[f.key].add(key)
         self._callers, self._callees, self._addr_taken = callers, callees, addr
 
+    def func_of_call(self, f, n):
+        """Func of a resolved direct call node (functions with internal linkage are keyed per file)"""
+        cm = n.get("cm")
+        if not cm:
+            return None
+        return self.funcs.get(cm) or self.funcs.get("%s@%s" % (cm, f.file))
+
     def callers_of(self, qn):
         """all call sites [(Func, node)] whose resolved callee has this qualified name"""
         if self._callers is None:
